@@ -38,6 +38,10 @@ pub fn check(bc: &BuildCase, fam: &str, obs: &mut Obs) -> Result<(), Fail> {
     if bc.opts.version.is_some() {
         ensure!(vs == v, "size", "forced version {} but matrix side {} (= version {}) ({:?})", v, n, vs, bc);
     }
+    // ... and it is the version the QR code itself reports
+    if let Some(rv) = built.qr.version.map(crate::fq::version_no) {
+        ensure!(n == 17 + 4 * rv, "size", "the QR code reports version {} but its matrix side is {} (17+4v = {}) ({:?})", rv, n, 17 + 4 * rv, bc);
+    }
     let g = geometry(vs);
     if let Some(d) = built.index_view_differs() {
         return fail("index_view", format!("the row view of the symbol differs from its data: {} ({:?})", d, bc));
